@@ -682,6 +682,10 @@ def run(ctx, rep, model=None):
                                    "which dumpable() declares serializable (dumpable('\\ud800') is True, dump raises)" % errors,
                                    ctx.loc(p.nodes[0]) if p.nodes else fn.loc)
         rep.floor("R04.3", "dump paths exercised for %s" % t.__name__, len(seen_paths), 1)
+        mm_ = getattr(ctx, "_imm_mismatch", {}).get(fn.qual)
+        if mm_ is not None:
+            rep.ob("R04.3", "%s: the immediate lookup covers exactly the immediate table" % fn.name, False, mm_[1], ctx.loc(mm_[0]),
+                   kind="table")
         if t in (float, complex):
             # struct packs a Python float without loss or failure only with the 8-byte format: 'f'/'e' raise OverflowError for
             # finite doubles beyond their range (and round the rest)
